@@ -62,13 +62,16 @@ def place_demos(d):
     if os.path.exists(os.path.join(d, "placement.json")):
         override = json.load(open(os.path.join(d, "placement.json")))
     for f in sorted(os.listdir(d)):
-        if not (f.endswith(".rs") and "demo" in f):
+        if not (f.endswith(".rs") and ("demo" in f or f in override)):
             continue
         crate = override.get(f) or ("derive" if "derive" in f else ("vm" if "_vm" in f else default))
         name = "seeddemo_" + re.sub(r"\W", "_", f[:-3])
         dst = os.path.join(WT, crate, "tests", name + ".rs")
         os.makedirs(os.path.dirname(dst), exist_ok=True)
         shutil.copy2(os.path.join(d, f), dst)
+        for extra in os.listdir(d):
+            if extra.endswith(".pest"):
+                shutil.copy2(os.path.join(d, extra), os.path.join(os.path.dirname(dst), extra))
         pkg = {"pest": "pest", "vm": "pest_vm", "meta": "pest_meta", "derive": "pest_derive", "generator": "pest_generator",
                "grammars": "pest_grammars", "debugger": "pest_debugger"}[crate]
         out.append((pkg, name, override.get("features", feats)))
@@ -134,6 +137,12 @@ def confirm(d):
     s = suite()
     res["suite_with_change"] = s
     res["suite_ok"] = (not s["compile_error"]) and all(f.endswith("quote") for f in s["failed"]) and s["passed"] > 500
+    # a set-up diff that only makes the demonstration buildable (e.g. a dev-dependency); stays for both runs
+    for setup_diff in (os.path.join(d, "demo_setup.diff"), os.path.join(os.path.dirname(d), "demo_setup.diff")):
+        if os.path.exists(setup_diff):
+            rc2, out2 = sh(["git", "-C", WT, "apply", setup_diff])
+            res["demo_setup"] = "applied" if rc2 == 0 else out2[-300:]
+            break
     demos = place_demos(d)
     res["demos"] = [x[1] for x in demos]
     ok_with, log_with = run_demos(d, demos)
